@@ -17,27 +17,27 @@ namespace EG.Driver
 open EG EG.Font
 
 /-- `a:b:c` fields of one token -/
-def fields (s : String) : List String := s.splitOn ":"
+private def fields (s : String) : List String := s.splitOn ":"
 
-def hexVal (c : Char) : Nat :=
+private def hexVal (c : Char) : Nat :=
   if '0' ≤ c ∧ c ≤ '9' then c.toNat - '0'.toNat
   else if 'a' ≤ c ∧ c ≤ 'f' then c.toNat - 'a'.toNat + 10
   else 0
 
 /-- hex string -> bits, most significant bit of every digit first -/
-def hexBits (s : String) : Array Bool :=
+private def hexBits (s : String) : Array Bool :=
   s.foldl (fun acc c =>
     let v := hexVal c
     (((acc.push (v / 8 % 2 == 1)).push (v / 4 % 2 == 1)).push (v / 2 % 2 == 1)).push (v % 2 == 1)) #[]
 
 /-- atlas function of an image of width `w`, height `h` from its row-major bits -/
-def atlasOf (w h : Nat) (bits : Array Bool) : Pt → Bool := fun p =>
+private def atlasOf (w h : Nat) (bits : Array Bool) : Pt → Bool := fun p =>
   if 0 ≤ p.x ∧ 0 ≤ p.y ∧ p.x < (w : Int) ∧ p.y < (h : Int) then
     bits.getD (p.y.toNat * w + p.x.toNat) false
   else false
 
 /-- `b:<fid>` or `c:<imgW>:<imgH>:<cw>:<ch>:<sp>:<bl>:<ulOff>:<ulH>:<stOff>:<stH>:<repl>:<data cps>` -/
-def parseFontSpec (s : String) : Option MonoFont :=
+private def parseFontSpec (s : String) : Option MonoFont :=
   match fields s with
   | ["b", fid] =>
     match Generated.fontTable[parseNat fid]? with
@@ -52,17 +52,17 @@ def parseFontSpec (s : String) : Option MonoFont :=
 
 private def parseOptColor (s : String) : Option Color := if s == "-" then none else some (parseNat s)
 
-def parseDeco (s : String) : DecoColor :=
+private def parseDeco (s : String) : DecoColor :=
   if s == "n" then .none else if s == "t" then .textColor else .custom (parseNat s)
 
-def baselineOf : Nat → Baseline
+private def baselineOf : Nat → Baseline
   | 0 => .top
   | 1 => .bottom
   | 2 => .middle
   | _ => .alphabetic
 
 /-- the harness's unbounded recording box -/
-def bigBox : Rect := ⟨⟨-1048576, -1048576⟩, ⟨2097152, 2097152⟩⟩
+private def bigBox : Rect := ⟨⟨-1048576, -1048576⟩, ⟨2097152, 2097152⟩⟩
 
 def handleFont (stream : String) (t : Toks) : Option String :=
   match stream with
